@@ -137,6 +137,9 @@ func (p *forestPrinter) node(n *yaml.Node) {
 	if n.Style&(yaml.LiteralStyle|yaml.FoldedStyle) != 0 {
 		a |= 1 << 10
 	}
+	if n.Style&yaml.DoubleQuotedStyle != 0 {
+		a |= 1 << 11
+	}
 	a |= len(n.Anchor) << 16
 	var emb *yaml.Node
 	// parser.go parseNode only looks for YAML inside LITERAL block scalars (commit 147313f): the style condition is
